@@ -26,6 +26,7 @@ RULE = (
 )
 RULE += '; template: the least recently used key still in flight when the cache overflows'
 RULE += '; template: an expired key computed anew beside a newer in-flight key in a full cache'
+RULE += '; template: an evicted invocation finishes while the displacing key is in flight'
 LEVEL_TEXT = (
     "Exhaustive single-fault injection per generated program: every caller is cancelled at every loop iteration of the "
     "program's deterministic schedule; each run is judged by history predicates (sharing obligation, outcome of the "
@@ -449,7 +450,23 @@ def strategy(tier):
         invs = [{"dur": 0, "out": "value"}, *([{"dur": 0, "out": "value"}] if limit == 3 else []), {"dur": 5, "out": "value"}, {"dur": 0, "out": "value"}, {"dur": 0, "out": "value"}]
         return {"limit": limit, "exp": 1, "method": draw(st.booleans()), "callers": callers, "invs": invs, "inject": None, "in_scope": draw(st.booleans())}
 
-    return st.one_of(cases(), cases(), cases(), stale_completion(), evict_then_rejoin(), two_late(), pending_at_lru_end(), expired_neighbour())
+    @st.composite
+    def evicted_then_finished(draw):
+        """an invocation whose entry was evicted FINISHES while the key that displaced it is still in flight: finishing changes
+        nothing about who is cached - the next caller of the in-flight key joins it"""
+        limit = draw(st.sampled_from([1, 1, 2]))
+        callers = [{"key": 0, "at": 0}]  # runs until 1.0
+        invs = [{"dur": 1, "out": draw(st.sampled_from(["value", "value", "exc"]))}]
+        t = 0.25
+        for k in range(1, limit + 1):  # each displaces the oldest entry; all long running
+            callers.append({"key": k, "at": t})
+            invs.append({"dur": 5, "out": "value"})
+            t += 0.25
+        for k in range(1, limit + 1):  # after key 0's invocation has finished (1.0): join the in-flight ones
+            callers.append({"key": k, "at": 1.5})
+        return {"limit": limit, "exp": None, "method": draw(st.booleans()), "callers": callers, "invs": invs, "inject": None, "in_scope": draw(st.booleans())}
+
+    return st.one_of(cases(), cases(), cases(), stale_completion(), evict_then_rejoin(), two_late(), pending_at_lru_end(), expired_neighbour(), evicted_then_finished())
 
 
 def budget(tier):
